@@ -182,7 +182,7 @@ class GitSched(graphs.SymSched):
         return out, p.returncode
 
 
-def make(M, K, flags=FLAGS, modes=GM, known_commits_only=False, tags=False):
+def make(M, K, flags=FLAGS, modes=GM, known_commits_only=False, tags=False, dependent="d"):
     def fn(g):
         import conductor.cli.run as cli_run
         import conductor.cli.where as cli_where
@@ -219,7 +219,8 @@ def make(M, K, flags=FLAGS, modes=GM, known_commits_only=False, tags=False):
             at_least = pool[g.choose("atleast", len(pool))]
         proj = hrun.Project(config=("disable_git = true\n" if mode == "disabled" else ""))
         try:
-            proj.write("COND", "run_experiment(name='e', run='true')\nrun_command(name='d', run='true', deps=[':e'])\n")
+            proj.write("COND", "run_experiment(name='e', run='true')\nrun_command(name='d', run='true', deps=[':e'])\n"
+                       "combine(name='k', deps=[':e'])\n")
             for row in rows:
                 proj.add_version("//:e", row["ts"], commit=row["commit"], dirty=row["dirty"])
             D = "mode=%s M=%s head=%s dirty=%s rows=%s flag=%s at_least=%s" % (
@@ -233,7 +234,7 @@ def make(M, K, flags=FLAGS, modes=GM, known_commits_only=False, tags=False):
             # ---- observation 2: cond run //:d
             sched2 = GitSched(g, mode, dag, head, dirty)
             kern2 = fakeos.Kernel(sched2, clock=fakeos.Clock())
-            ns = hrun.run_ns(task_identifier="//:d", again=flag in ("again", "again+commit"),
+            ns = hrun.run_ns(task_identifier="//:" + dependent, again=flag in ("again", "again+commit"),
                              this_commit=flag in ("this-commit", "both-commit-flags"),
                              at_least=at_least if flag in ("at-least", "both-commit-flags", "again+commit") else None)
             res = hrun.invoke(cli_run.main, ns, str(proj.root), kern2)
@@ -299,9 +300,16 @@ def make(M, K, flags=FLAGS, modes=GM, known_commits_only=False, tags=False):
                 return {"nontrivial": False, "sample": {"case": D, "rejected": True}}
             # ---- what ran, what the dependent saw
             e_ran = "e" in spawned
-            dproc = [p for p in kern2.tasks() if p.name == "d"]
-            g.require(len(dproc) == 1 and res.status == 0, "select:run-failed", "status=%r spawned=%s; %s" % (res.status, sorted(spawned), D))
-            deps = dproc[0].env.get("COND_DEPS", "")
+            if dependent == "k":
+                # the dependent is a combine task: what it exposes under the dependency's name
+                entry = proj.out / "k.task" / "e"
+                g.require(res.status == 0 and os.path.lexists(str(entry)), "select:run-failed", "status=%r, k.task/e %s; %s" % (
+                    res.status, "exists" if os.path.lexists(str(entry)) else "missing", D))
+                deps = os.path.realpath(str(entry))
+            else:
+                dproc = [p for p in kern2.tasks() if p.name == "d"]
+                g.require(len(dproc) == 1 and res.status == 0, "select:run-failed", "status=%r spawned=%s; %s" % (res.status, sorted(spawned), D))
+                deps = dproc[0].env.get("COND_DEPS", "")
             m = re.search(r"e\.task\.(\d+)$", deps)
             d_ts = int(m.group(1)) if m else None
             info = hrun.parse_run_output(res)
@@ -324,7 +332,7 @@ def make(M, K, flags=FLAGS, modes=GM, known_commits_only=False, tags=False):
             g.require(e_ran != ("//:e" in info["cached"]), "select:cached-report", "ran=%s cached lines=%s; %s" % (e_ran, info["cached"], D))
             if e_ran:
                 eproc = [p for p in kern2.tasks() if p.name == "e"][0]
-                g.require(deps == eproc.env["COND_OUT"], "select:dependent-sees-wrong-version",
+                g.require(os.path.realpath(deps) == os.path.realpath(eproc.env["COND_OUT"]), "select:dependent-sees-wrong-version",
                           "dependent got COND_DEPS=%r, experiment wrote %r; %s" % (deps, eproc.env["COND_OUT"], D))
                 # recorded with HEAD's hash and dirty bit of this invocation
                 new = [r for r in proj.index_rows() if r[1] not in [x["ts"] for x in rows]]
@@ -432,6 +440,68 @@ def lemma_git_conformance(M):
     return fn
 
 
+def history_fn(g):
+    """Selection after the set of recorded versions changed through ANOTHER command: a version is selected (where / a cached
+    run), an archive holding a closer version is restored, the selection is asked for again at the same HEAD."""
+    import argparse
+    import conductor.cli.where as cli_where
+    import conductor.cli.run as cli_run
+    first = ("where", "run", "nothing")[g.choose("first_command", 3)]
+    better = ("at-HEAD", "at-parent-but-newer")[g.choose("restored_version", 2)]
+    dag = Dag(g, 3)
+    for (i, j), t in dag.p.items():
+        g.assume(g.lift(t if (i, j) in ((1, 0), (2, 1)) else z3.Not(t)))        # the chain c0 <- c1 <- c2, HEAD = c2
+    head = 2
+    proj = hrun.Project(config="")
+    src = hrun.Project(config="")
+    try:
+        text = "run_experiment(name='e', run='true')\nrun_command(name='d', run='true', deps=[':e'])\n"
+        proj.write("COND", text)
+        src.write("COND", text)
+        proj.add_version("//:e", 10, commit=H(0))
+        new_ts, new_commit = (20, H(2)) if better == "at-HEAD" else (20, H(1))
+        src.add_version("//:e", new_ts, commit=new_commit)
+        arch = str(src.root / "better.tar.gz")
+        D = "recorded: version 10 at c0; HEAD=c2; first command: %s; then restore of an archive with version %d made %s; then where / run" % (
+            first, new_ts, better)
+
+        def kernel():
+            return fakeos.Kernel(GitSched(g, "dag", dag, head, False), clock=fakeos.Clock())
+
+        def where():
+            r = hrun.invoke(cli_where.main, argparse.Namespace(task_identifier="//:e", project=False, non_existent_ok=False, debug=False), str(proj.root), kernel())
+            m_ = re.search(r"e\.task\.(\d+)\s*$", r.out)
+            return int(m_.group(1)) if (m_ and r.status == 0) else None
+        ra = hrun.invoke_argv(["archive", "-o", arch], str(src.root), kernel())
+        g.require(ra.status == 0, "select:harness-archive-failed", "%r %s" % (ra.status, ra.err[-200:]))
+        if first == "where":
+            g.require(where() == 10, "select:where-reports-wrong-version", "before the restore; %s" % D)
+        elif first == "run":
+            k1 = kernel()
+            r1 = hrun.invoke(cli_run.main, hrun.run_ns(task_identifier="//:d"), str(proj.root), k1)
+            g.require(r1.status == 0 and [p.name for p in k1.tasks()] == ["d"], "select:wrong-run-decision", "before the restore: spawned %s; %s" % ([p.name for p in k1.tasks()], D))
+        rr = hrun.invoke_argv(["restore", arch], str(proj.root), kernel())
+        g.require(rr.status == 0, "select:harness-restore-failed", "%r %s; %s" % (rr.status, rr.err[-200:], D))
+        got = where()
+        g.require(got == new_ts, "select:where-reports-wrong-version", "after the restore cond where selects version %s, the closest one is %d; %s" % (got, new_ts, D))
+        k2 = kernel()
+        r2 = hrun.invoke(cli_run.main, hrun.run_ns(task_identifier="//:d"), str(proj.root), k2)
+        names = [p.name for p in k2.tasks()]
+        deps = [p.env.get("COND_DEPS", "") for p in k2.tasks() if p.name == "d"]
+        g.require(r2.status == 0 and names == ["d"] and deps and deps[0].endswith("e.task.%d" % new_ts), "select:dependent-sees-wrong-version",
+                  "after the restore: spawned %s, COND_DEPS=%s; %s" % (names, deps, D))
+        # --at-least c1/c2 is satisfied by the restored version (made at that commit or a later one)
+        k3 = kernel()
+        r3 = hrun.invoke(cli_run.main, hrun.run_ns(task_identifier="//:d", at_least=H(1)), str(proj.root), k3)
+        g.require(r3.status == 0 and [p.name for p in k3.tasks()] == ["d"], "select:wrong-run-decision",
+                  "after the restore --at-least c1 spawned %s (status %r); %s" % ([p.name for p in k3.tasks()], r3.status, D))
+        g.goal("selection asked again after a restore")
+        return {"nontrivial": True, "sample": {"case": D, "selected": got}}
+    finally:
+        proj.cleanup()
+        src.cleanup()
+
+
 def bulk_fn(g):
     """More versions than any batch size: the closest one may be the 65th record."""
     import argparse
@@ -471,6 +541,9 @@ def spaces(tier):
                     "M<=3 commits, one recorded version at a known commit, --at-least given as a commit hash or as an ANNOTATED TAG on any "
                     "commit (rev-parse yields the tag object's id unless peeled; merge-base and rev-list peel)", depth=12,
                     goals=["--at-least names an annotated tag on the cached version's commit"]))
+    sp.append(Space("m2-k2-combine-dependent", make(2, 2, flags=("none", "this-commit"), modes=("dag", "no-repo"), dependent="k"),
+                    "<=2 commits (related or not), <=2 recorded versions, as m3-k2 with the dependent being a combine task: the entry it exposes resolves to the selected version", depth=14,
+                    goals=["git in use and a recorded version carries a known commit"]))
     sp.append(Space("m4-k1-atleast", make(4, 1, flags=("at-least",), modes=("dag",)),
                     "exactly 4 commits (symbolic parents: forks and merges, so that a version's commit and C can be unrelated "
                     "ancestors of HEAD), HEAD anywhere, <=1 recorded version, --at-least C for every C", depth=7,
@@ -479,6 +552,9 @@ def spaces(tier):
                     "a linear history of 3 commits, HEAD anywhere, exactly 3 recorded versions made at any of the commits, every order of "
                     "recording (timestamps are a permutation)", depth=8,
                     preset={"M": 2, "par1_0": True, "par2_1": True, "par2_0": False, "K": 3, "dirty": False}))
+    sp.append(Space("select-restore-select", history_fn, "chain c0 <- c1 <- c2 = HEAD, version at c0 recorded; {where, cached run, nothing}; restore of an "
+                    "archive with a version made at HEAD or at c1; where / run / run --at-least c1 again", depth=8,
+                    goals=["selection asked again after a restore"]))
     sp.append(Space("bulk-70-versions", bulk_fn, "70 recorded versions: 69 made at an older commit and one at HEAD, the one at HEAD recorded "
                     "first / 64th / 65th / last", depth=3, goals=["more than 64 recorded versions of one task"]))
     if tier == "thorough":
